@@ -229,6 +229,8 @@ def rules(ctx):
     # ---------------------------------------------------------------- R02.3
     ancilla_rules(ctx, 'R02.3', 'qubovert._pcbo')
     copy_ctor_counter(ctx, 'R02.3')
+    from .C14 import record_and_counter_together
+    record_and_counter_together(ctx, 'R02.3')
 
     # ------------------------------------------------------- R02.4 / R02.5
     E.build()
@@ -309,6 +311,7 @@ def rules(ctx):
 
     # ---------------------------------------------------------------- R02.12
     slack_guards(ctx, 'R02.12', list(meths.values()) + P.opt_funcs(['_pcbo._special_constraints_le_zero']))
+    slack_register_size(ctx, 'R02.12', [meths['le'], meths['ne']] + P.opt_funcs(['_pcbo._special_constraints_le_zero']))
 
     # ---------------------------------------------------------------- R02.13 / R02.14
     merge_discipline(ctx, 'R02.13', list(meths.values()) + P.opt_funcs(['_pcbo._special_constraints_eq_zero',
@@ -459,6 +462,70 @@ def record_not_shared(ctx, rid):
     ok = bool(rets) and all(isinstance(r.value, ast.DictComp) and isinstance(r.value.value, ast.ListComp) for r in rets)
     ctx.inst(rid, gt, rets[0] if rets else 'return', ok,
              "the getter builds fresh lists" if ok else "the constraints getter does not build fresh per-relation lists")
+
+
+def linear_form(e):
+    """{name or attribute text: coefficient, '': constant} of an integer-linear expression, else None."""
+    if isinstance(e, ast.Constant) and isinstance(e.value, (int, float)) and not isinstance(e.value, bool):
+        return {'': e.value}
+    if isinstance(e, (ast.Name, ast.Attribute)):
+        return {src(e): 1}
+    if isinstance(e, ast.UnaryOp) and isinstance(e.op, (ast.USub, ast.UAdd)):
+        f = linear_form(e.operand)
+        if f is None:
+            return None
+        return {k: (-v if isinstance(e.op, ast.USub) else v) for k, v in f.items()}
+    if isinstance(e, ast.BinOp) and isinstance(e.op, (ast.Add, ast.Sub)):
+        a, b = linear_form(e.left), linear_form(e.right)
+        if a is None or b is None:
+            return None
+        out = dict(a)
+        for k, v in b.items():
+            out[k] = out.get(k, 0) + (v if isinstance(e.op, ast.Add) else -v)
+        return {k: v for k, v in out.items() if v}
+    if isinstance(e, ast.BinOp) and isinstance(e.op, ast.Mult):
+        a, b = linear_form(e.left), linear_form(e.right)
+        for x, y in ((a, b), (b, a)):
+            if x is not None and y is not None and set(x) <= {''}:
+                c = x.get('', 0)
+                return {k: v * c for k, v in y.items() if v * c}
+    return None
+
+
+def slack_register_size(ctx, rid, fns):
+    """The slack register of an inequality is `for i in range(num_bits(E, log_trick))` with E the largest slack value that
+    can be needed: -min for `<= 0` (P + s == 0, s in 0..-min), max - min - 1 for `!= 0` (after the sign bit widened the
+    range), -offset in the unary shortcut.  E is compared as a linear form, so respellings are accepted; a shifted or
+    shortened register cannot represent every needed slack value."""
+    for fn in fns:
+        mn, mx, _ = bounds_names(fn)
+        if mn is None and fn.name == '_special_constraints_le_zero':
+            mn = bounds_names(fn)[0]
+        pname = fn.params[1] if len(fn.params) > 1 else 'P'
+        for lp in [n for n in ast.walk(fn.node) if isinstance(n, ast.For)]:
+            if '_next_ancilla' not in ' '.join(src(b) for b in lp.body):
+                continue
+            it = lp.iter
+            nb = it.args[0] if isinstance(it, ast.Call) and is_name(it.func, 'range') and len(it.args) == 1 else None
+            bare = isinstance(nb, ast.Call) and call_name(nb) == 'num_bits' and nb.args
+            if not bare:
+                ctx.inst(rid, fn, lp, False,
+                         "the slack loop does not run over range(num_bits(<largest slack>, log_trick)) as such (`%s`): bits are "
+                         "dropped from / added to the register" % src(it)[:60])
+                continue
+            got = linear_form(expand_names(fn.node, nb.args[0]))
+            if fn.name.endswith('ne_zero'):
+                wants, wtxt = [{mx: 1, mn: -1, '': -1}], '%s - %s - 1' % (mx, mn)
+            else:
+                # the general slack register (-min) and the unary shortcut (-offset, taken only where min == offset) may
+                # live in the same function when the special-form helper was inlined
+                wants = [{'%s.offset' % pname: -1}] + ([{mn: -1}] if mn else [])
+                wtxt = ' / '.join(['-%s.offset' % pname] + (['-%s' % mn] if mn else []))
+            ok = got is not None and got in wants
+            ctx.inst(rid, fn, nb, ok,
+                     "register sized by num_bits(%s)" % wtxt if ok else
+                     "the slack register is sized by num_bits(%s) instead of num_bits(%s): slack values needed by feasible "
+                     "assignments cannot be represented (or the equality range is wrong)" % (src(nb.args[0]), wtxt))
 
 
 def arity_guards(ctx, rid, fns):
